@@ -35,7 +35,7 @@ def run_driver(exe: str, lines: list[str]) -> list[str]:
     return out
 
 
-def child(mode: str, job: dict, tmp: str, tag: str, timeout: int = 1500) -> tuple[int, str]:
+def child(mode: str, job: dict, tmp: str, tag: str, timeout: int = 14000) -> tuple[int, str]:
     jf = os.path.join(tmp, f"job_{tag}.json")
     json.dump(job, open(jf, "w"))
     return vlib.sh([vlib.PY, IRDUMP, mode, jf], timeout=timeout, env=vlib.py_env(), cwd=tmp)
@@ -827,7 +827,7 @@ def pass_stage(ctx: vlib.Ctx, exe: str | None, tmp: str) -> None:
         i, cases = a
         job = {"repo": vlib.REPO, "work": os.path.join(tmp, f"pw{i}"), "out": os.path.join(tmp, f"pass{i}.dump"),
                "cases": cases, "pretty": False}
-        st, o = child("--passes", job, tmp, f"p{i}", timeout=1700)
+        st, o = child("--passes", job, tmp, f"p{i}", timeout=14000)
         return st, o, job["out"]
     with ThreadPoolExecutor(max_workers=nj) as ex:
         outs = list(ex.map(one, enumerate(jobs)))
@@ -951,7 +951,7 @@ def run(ctx: vlib.Ctx) -> None:
     ]
     ok = ctx.prove("C05/Properties.v", ["C05"])
     ctx.prove("C05/PropertiesC.v", ["C05", "C12"])
-    exe = vlib.build_extracted("c05", "C05/Extract.v", "tools/ocaml/c05_driver.ml")
+    exe = vlib.build_extracted("c05_" + ctx.tier, "C05/Extract.v", "tools/ocaml/c05_driver.ml")
     if exe is None:
         ctx.broke("C", "extraction", "extracted model does not build")
     tmp = tempfile.mkdtemp(prefix="c05_")
@@ -982,8 +982,15 @@ def replay(ctx: vlib.Ctx, path: str) -> None:
     if r.get("kind", "").startswith("diff"):
         from harness import C05_diff
         C05_diff.replay_diff(ctx, r)
+    elif r.get("kind") == "argparse":
+        exe = vlib.build_extracted("c05_" + ctx.tier, "C05/Extract.v", "tools/ocaml/c05_driver.ml")
+        tmp = tempfile.mkdtemp(prefix="c05_")
+        try:
+            argparse_stage(ctx, exe, tmp)
+        finally:
+            shutil.rmtree(tmp, ignore_errors=True)
     elif r.get("kind") == "pass":
-        exe = vlib.build_extracted("c05", "C05/Extract.v", "tools/ocaml/c05_driver.ml")
+        exe = vlib.build_extracted("c05_" + ctx.tier, "C05/Extract.v", "tools/ocaml/c05_driver.ml")
         o = run_driver(exe, [r["driver_line"]])[0]
         print("validator verdict on the recorded pair:", o)
         if o != "1":
